@@ -56,7 +56,27 @@ PROPS["C01"] = dict(
 )
 
 # ------------------------------------------------------------------------------------------------ C02
+def compare_digests(label):
+    """post hook: every run of the check must report identical per-stream outcome digests"""
+    def post(ctx):
+        out = []
+        dg = ctx["digests"]
+        names = sorted(dg)
+        if len(names) < 2:
+            return out
+        ref = names[0]
+        for n in names[1:]:
+            for stream in sorted(set(dg[ref]) | set(dg[n])):
+                if dg[ref].get(stream) != dg[n].get(stream):
+                    out.append(dict(key="%s:%s" % (label, stream), run=n, stream=stream, gidx=-1, witness_hex="",
+                                    detail="per-case outcome digest of stream %s differs between run %s (%s) and run %s (%s)" % (
+                                        stream, ref, dg[ref].get(stream), n, dg[n].get(stream))))
+        return out
+    return post
+
+
 PROPS["C02"] = dict(
+    post=compare_digests("outcome-depends-on-heap-fill"),
     title="Parse is total and memory-safe for every allocator kind",
     rule=("C01's unknown-validity corpus plus reuse histories (2-8 steps of Parse valid/invalid, mutation, move, Swap, "
           "ParseOnDemand, Dump on one document) on pool / adaptive pool / malloc-free / ledger allocators; every run repeated "
